@@ -66,7 +66,7 @@ PROPS["C13"] = {
     "trusted": WS_TRUSTED,
     "assumptions": ["application behaviour as in the property: at most one Unsubscribe per id, one Close; connection writes complete"],
     "level_text": "Invariants of an unbounded small-step model of the WebSocket client (any number of subscriptions, server frames of any kind/order/multiplicity, faults, connection loss, any schedule): channels closed exactly when marked, the reader never blocks for good on the error channel, the client mutex is held across a scheduling point only in handleErr, every API call can always take its next step (or waits only for a reader step that is enabled and frees the mutex), and no goroutine panics unless the application ends a subscription while one of its messages is between lookup and channel send (that residual sender/closer race is refuted in the model and listed as an open finding). Tied to websocket.go/subscription.go by per-step in-kernel replay of every explored schedule of the real client under a deterministic controller.",
-    "level_note": "partial: Go memory-model races are covered by the lock-set invariant on the model plus -race runs, not by a theorem; timer behaviour not modelled; the residual send-on-closed-channel race is an open finding.",
+    "level_note": "partial: Go memory-model races are covered by the lock-set invariant on the model and by the translator's lock-discipline fact about subscriptionMap (read from the source on every run), not by a theorem about Go's memory model; no -race runs; timer behaviour not modelled; the residual send-on-closed-channel race is an open finding.",
     "theorem_status": {"C13_map_methods_hold_the_lock": "proved (translator fact: lock discipline of subscriptionMap read from the source)",
                        "C13_no_panic_partial": "proved (hypothesis: no end-of-subscription while its message is in flight)",
                        "C13_no_panic_refuted": "refuted full statement (witness schedule) - open finding",
@@ -86,11 +86,12 @@ PROPS["C15"] = {
     "coq": ["Properties/C15.v", "Corr/Wscorr.v"],
     "trusted": WS_TRUSTED,
     "assumptions": [],
-    "level_text": "Theorems: for every sequence of handshake operations with any fault/garbage/ack pattern Start leaves no reader and a closed connection on failure and writes init before reading the ack; a failed Subscribe write unregisters and writes nothing; Close collects only active ids, continues after a failed close-frame write and its final step always closes connection and error channel; every Close thread can always progress. Tied to the code by per-step replay incl. an every-k connection-fault sweep, and the Go oracle over the frames really written (init first, fresh ids, <=1 complete per id, nothing after close).",
+    "level_text": "Theorems: for every sequence of handshake operations with any fault/garbage/ack pattern Start leaves no reader and a closed connection on failure and writes init before reading the ack; a failed Subscribe write unregisters and writes nothing; subscribe frames carry pairwise distinct ids of registered subscriptions in every reachable state; Close collects only active ids, continues after a failed close-frame write and its final step always closes connection and error channel; every Close thread can always progress. Tied to the code by per-step replay incl. an every-k connection-fault sweep, and the Go oracle over the frames really written (init first, fresh ids, <=1 complete per id, nothing after close).",
     "level_note": "partial: the complete frame grammar as a regular-language theorem over [frames] is checked by the oracle/correspondence, the proved part is listed in theorem_status.",
     "theorem_status": {"C15_start_fault_cleanup": "proved", "C15_subscribe_fault_unregisters": "proved",
                        "C15_close_collects_only_active": "proved", "C15_close_goes_on": "proved",
-                       "C15_close_always_releases": "proved", "C15_close_reaches_release": "proved"},
+                       "C15_close_always_releases": "proved", "C15_close_reaches_release": "proved",
+                       "C15_subscribe_ids_are_fresh": "proved (invariant over every reachable state: subscribe frames carry pairwise distinct ids of registered subscriptions)"},
 }
 
 PROPS["C20"] = {
@@ -147,7 +148,7 @@ PROPS["C18"] = {
     ],
     "assumptions": ["paths without ':' (hypothesis no_colon; the statement without it is refuted in Coq)"],
     "level_text": "Byte-level theorems for every file name without ':' and all line numbers: Atoi(Sprint n)=n; a node on line l of a .graphql file prints file:l; a node on line l of a literal opened on Go line L prints file.go:(L+l-1); errorf prefers the explicit node position, then a wrapped genqlient position, then a wrapped gqlparser location. Tied to errors.go/parse.go by injecting one positioned fault (15 classes) into random programs laid out over .graphql files and raw/interpreted Go literals at random offsets and comparing the real message prefix with the model in-kernel and with the true location.",
-    "level_note": "partial: the mapping error site -> position passed is oracle-checked, not proved; two open findings (sites inside convertDefinition report the schema's position; interpreted string literals with escaped newlines).",
+    "level_note": "partial: the mapping error site -> position passed is oracle-checked, not proved; three open findings (sites inside convertDefinition report the schema's position; interpreted string literals with escaped newlines).",
     "theorem_status": {"C18_line_number_roundtrip": "proved", "C18_graphql_line": "proved", "C18_go_line": "proved",
                        "C18_go_line_colon_path_refuted": "refuted without the no-colon hypothesis (witness a:b/q.go)",
                        "C18_explicit_position_wins": "proved", "C18_wrapped_graphql_position": "proved", "C18_no_position_iff": "proved"},
@@ -216,7 +217,7 @@ PROPS["C01"] = {
     "trusted": CONV_TRUSTED + ["the Go compiler (go build of every emitted package in a scratch module that replaces genqlient with /repo and stubs the bound types) is the oracle for 'type-checks'; Gen/Typing.v models only the typing condition of the (un)marshal blocks, transcribed from the templates; gofmt/goimports are trusted to preserve typing"],
     "assumptions": ["supported fragment as generated by gen.DecorateSafe/RandomCfgSafe: options only where documented as valid, the same options on every occurrence of a repeated field, field keys distinct from fragment names under export casing"],
     "level_text": "Theorems: the (un)marshal blocks emitted for fields needing special handling type-check iff the field's Go type is `[]`^SliceDepth around `[*]Unwrap` (both templates, same condition); for every GraphQL type of any list depth and every pointer / optional / use_struct_references setting the type convertType builds makes them type-check exactly when no generic wrapper is involved, which happens exactly for optional: generic on a nullable type without an applicable pointer -- so 'always compiles' is refuted there (open finding) and proved elsewhere for the blocks. Whole-file compilation and acceptance are decided by compiling every emitted package of random supported programs with the real Go compiler; every declaration is compared with the converter model in-kernel.",
-    "level_note": "partial: closedness / duplicate-identifier / interface-satisfaction parts of well-formedness are decided by the Go compiler on generated programs (oracle), not by theorems; five open findings.",
+    "level_note": "partial: closedness / duplicate-identifier / interface-satisfaction parts of well-formedness are decided by the Go compiler on generated programs (oracle), not by theorems; seven open findings (listed in KNOWN_FINDINGS.json).",
     "theorem_status": {"C01_unmarshal_block_typed_iff": "proved", "C01_marshal_block_typed_iff": "proved", "C01_blocks_typed": "proved",
                        "C01_generic_wrapper_condition": "proved", "C01_blocks_generic_refuted": "refuted full statement for optional: generic (witness Option[I]) - open finding F-C01-1"},
 }
@@ -239,7 +240,8 @@ PROPS["C19"] = {
                        "C19_unknown_typename_is_an_error": "proved", "C19_scalar_or_list_for_an_abstract_value_is_an_error": "proved",
                        "C19_witness": "proved (non-vacuity)", "C19_templates_as_modelled": "proved (translator facts)",
                        "C19_result_independent_of_fuel": "proved (fuel monotonicity of all five decoders)", "C19_any_two_sufficient_fuels_agree": "proved",
-                       "C19_never_mistyped": "proved (a decoded value has the Go kind of its type; interfaces hold one of their implementations)"},
+                       "C19_never_mistyped": "proved (a decoded value has the Go kind of its type; interfaces hold one of their implementations)",
+                       "C19_leaf_types_never_run_out_of_fuel": "proved (termination for the wrapper algebra of leaf types: fuel bounds the type depth, not the input)"},
 }
 PROPS["C02"] = {
     "coq": ["Properties/C02.v", "Corr/Rtcorr.v"],
